@@ -169,9 +169,13 @@ func propC04(c *Ctx) {
 			"[!(0 == " + wnd + ") && seqnum.Value.InWindow($1, $0.rcvNxt, " + wnd + ")] => return true",
 			"[!(0 == " + wnd + ") && !seqnum.Value.InWindow($1, $0.rcvNxt, " + wnd + ")] => return seqnum.Overlap($0.rcvNxt, " + wnd + ", $1, $2)",
 		}
+		// rows are compared in canonical form (canon.go)
 		got := map[string]bool{}
 		for _, l := range FormatPaths(ps, false) {
-			got[l] = true
+			got[canonRow(l)] = true
+		}
+		for i := range want {
+			want[i] = canonRow(want[i])
 		}
 		for i, w := range want {
 			c.Check(got[w], n6, FuncName(fn)+"/row"+itoa(i+1), c.P.Pos(fn.Pos()), w, "row missing or altered: "+w)
